@@ -13,9 +13,15 @@ def to_ir(self: Expression) -> ir.Expression:
 
 @to_ir.register(Integer)
 def to_ir_integer(self: Integer):
-    # This is sensible as long as we only support floating point values and don't support division. If either of those
-    # ceases to be true, this will need to be updated.
-    return ir.IntegerLiteral(self.value)
+    # All tensor values are floating point, so an integer in the assignment denotes that number as
+    # a floating point value. Emitting it as an integer literal would make products and sums of
+    # literals 32-bit integer arithmetic in the kernel, which silently wraps for large values.
+    try:
+        value = float(self.value)
+    except OverflowError:
+        # Too large for a double; behave like the floating point literal of the same magnitude
+        value = float("inf") if self.value > 0 else float("-inf")
+    return ir.FloatLiteral(value)
 
 
 @to_ir.register(Float)
